@@ -154,6 +154,94 @@ func hardNode(r *ev.Run, l layout, depth int) ev.Part {
 		Bound: fmt.Sprintf("all histories of length <= %d over %d clock deltas + restart, 3 nodes x 4 seeded start steps", depth, len(hardDeltas)), WallS: time.Since(t0).Seconds()}
 }
 
+// hardNodeBursts: histories whose letters are BURSTS of 4096/4097 calls at one clock reading (each
+// burst wraps the step counter once more), single calls and restarts - the second and third wrap, a
+// wrap right after a restart, a wrap while the clock is behind.
+func hardNodeBursts(r *ev.Run, l layout, depth int) ev.Part {
+	t0 := time.Now()
+	var clock int64
+	restoreNow := snowflake.VerifSetNow(func() time.Time { return time.Unix(clock/1000, (clock%1000)*1e6) })
+	defer restoreNow()
+	type letter struct {
+		name  string
+		calls int
+		delta int64
+	}
+	alpha := []letter{{"burst4096@last+0", 4096, 0}, {"burst4097@last-5", 4097, -5}, {"burst4095@last+0", 4095, 0}, {"gen@last+1", 1, 1}, {"gen@last-1000", 1, -1000}, {"restart(lastID)", 0, 0}}
+	var execs, steps int64
+	outcomes := map[string]bool{}
+	exhaustive := true
+	node := int64(1)
+	for _, step0 := range []int64{0, 4095} {
+		min := compose(l, 1000000, node, step0)
+		hist := make([]int, depth)
+		run := func(n int) {
+			nd, _ := snowflake.NewNode(node, min)
+			last := min
+			var names []string
+			for i := 0; i < n; i++ {
+				a := alpha[hist[i]]
+				names = append(names, a.name)
+				if a.calls == 0 {
+					nd, _ = snowflake.NewNode(node, last)
+					continue
+				}
+				curT, _, _ := snowflake.IDFields(last)
+				now := curT + a.delta
+				clock = l.epoch + now
+				wraps := 0
+				for c := 0; c < a.calls; c++ {
+					id := nd.Generate()
+					steps++
+					tf, nf, sf := snowflake.IDFields(id)
+					bad := ""
+					switch {
+					case id <= last:
+						bad = fmt.Sprintf("call %d of the burst: id %d (t=%d step=%d) is not greater than the previous id %d", c+1, id, tf, sf, last)
+					case nf != node:
+						bad = fmt.Sprintf("call %d of the burst: id %d carries node %d, configured %d", c+1, id, nf, node)
+					case tf < now:
+						bad = fmt.Sprintf("call %d of the burst: id %d carries timestamp %d earlier than the clock reading %d", c+1, id, tf, now)
+					}
+					if bad != "" {
+						r.Violate(ev.Violation{Signature: "hardnode: burst history breaks monotonicity / node / clock bound", Scenario: "hardnode-bursts/" + l.String(), What: fmt.Sprintf("start step=%d history %v: %s", step0, names, bad),
+							Replay: map[string]interface{}{"layout": l.String(), "start_step": step0, "history": names}})
+						return
+					}
+					if sf == 0 {
+						wraps++
+					}
+					last = id
+				}
+				if i == n-1 {
+					outcomes[fmt.Sprintf("%s/wraps=%d", a.name, wraps)] = true
+				}
+			}
+		}
+		var rec func(d int)
+		rec = func(d int) {
+			if d > 0 {
+				execs++
+				run(d)
+			}
+			if d == depth {
+				return
+			}
+			if r.Expired() {
+				exhaustive = false
+				return
+			}
+			for a := range alpha {
+				hist[d] = a
+				rec(d + 1)
+			}
+		}
+		rec(0)
+	}
+	return ev.Part{Name: "hardnode-bursts/" + l.String(), Evaluations: execs, States: execs, Transitions: steps, Outcomes: int64(len(outcomes)), Exhaustive: exhaustive, Blocked: true,
+		Bound: fmt.Sprintf("all histories of length <= %d over bursts of 4095/4096/4097 calls at one clock reading, single calls and restarts, 2 seeded start steps", depth), WallS: time.Since(t0).Seconds()}
+}
+
 type monoOp struct {
 	delta int64
 	stall int
@@ -331,7 +419,7 @@ func nanoPart(r *ev.Run, depth int) ev.Part {
 
 func main() {
 	r := ev.Start("C06")
-	r.Rule("every history of clock readings (relative to the generator's current millisecond: -1000,-1,0,+1,+2,+100000; restart with the last id) up to the stated length on the real HardNode from seeded start states at the step wrap (step 0,1,4094,4095); MonoNode under a virtual non-decreasing clock incl. stalled readings inside its spin loop and a 4094-call frozen-clock warm-up; UnixNanoID over ts histories; for every layout (node bits 8/9/10 x node-at-lowest x two epochs, plus five more epochs - before 1970 with and without a millisecond fraction, 1970, a fraction after 1970 - on two layouts) in its own process; distinct = (delta, carry/reset/bump) classes")
+	r.Rule("burst histories (letters = 4095/4096/4097 calls at one clock reading, single calls, restarts: second and third step wrap, wrap after restart, wrap while the clock is behind); every history of clock readings (relative to the generator's current millisecond: -1000,-1,0,+1,+2,+100000; restart with the last id) up to the stated length on the real HardNode from seeded start states at the step wrap (step 0,1,4094,4095); MonoNode under a virtual non-decreasing clock incl. stalled readings inside its spin loop and a 4094-call frozen-clock warm-up; UnixNanoID over ts histories; for every layout (node bits 8/9/10 x node-at-lowest x two epochs, plus five more epochs - before 1970 with and without a millisecond fraction, 1970, a fraction after 1970 - on two layouts) in its own process; distinct = (delta, carry/reset/bump) classes")
 	r.Assume("clock readings stay inside the timestamp width", "MonoNode is only given non-decreasing clocks (it reads Go's monotonic clock)")
 	ls := layouts()
 	if r.Shard != "" {
@@ -341,6 +429,7 @@ func main() {
 			l := ls[k]
 			restore := snowflake.VerifSetConfig(l.epoch, l.nodeBits, l.lowest)
 			r.AddPart(hardNode(r, l, r.Pick(5, 7)))
+			r.AddPart(hardNodeBursts(r, l, r.Pick(4, 5)))
 			r.AddPart(monoNode(r, l, r.Pick(4, 6)))
 			restore()
 			r.Sample(map[string]interface{}{"layout": l.String(), "history": []string{"Generate@clock=last-1", "Generate@clock=last+0", "restart(lastID)", "Generate@clock=last-1000"}})
